@@ -95,16 +95,26 @@ def factories(F, S):
     """CreateIndexed: header and bmp header are assigned from the Create aggregates; pixels sized pitch x |height|."""
     out = []
     fn = F.fn(B + "::CreateIndexed", nparams=3)
-    stores = {}
-    for nd in fn.nodes:
-        if nd["k"] in ("BinaryOperator", "CXXOperatorCallExpr") and nd.get("op") == "=":
-            a = nd.get("args") or fn.kids(nd["id"])
-            stores[fn.term(a[0])] = fn.term(a[1])
-    bf = [k for k in stores if k[0] == "mem" and k[2] == "imageHeader"]
-    bh = [k for k in stores if k[0] == "mem" and k[2] == "bmpHeader"]
+    from ..through import built_record, field_value
+    built = built_record(F, fn)
+    if built is None:
+        raise AnalysisBroken("BitmapFile::CreateIndexed: the way the bitmap is built is not recognised")
+
+    def from_create(t, q, depth=2):
+        """t is q(...) or a call of a repository helper every return of which is (a helper returning) q(...)."""
+        if t is None or t[0] != "call":
+            return False
+        if t[1] == q:
+            return True
+        if depth == 0:
+            return False
+        hs = [h for h in F.by_qn.get(t[1], []) if h.cfg and len(h.params) == len(t[3])]
+        if len(hs) != 1:
+            return False
+        rs = returns(hs[0])
+        return bool(rs) and all(from_create(hs[0].term(r["value"]), q, depth - 1) for r in rs)
     inst = B + "::CreateIndexed#headers-assigned"
-    good = len(bf) == 1 and len(bh) == 1 and stores[bf[0]][0] == "call" and stores[bf[0]][1] == IH + "::Create" and \
-        stores[bh[0]][0] == "call" and stores[bh[0]][1].endswith("BmpHeader::Create")
+    good = from_create(field_value(built, ("imageHeader",)), IH + "::Create") and from_create(field_value(built, ("bmpHeader",)), "OP2Utility::BmpHeader::Create")
     if good:
         out.append(ok("R-INIT", inst, fn.loc(fn.body), fn.qn, "both headers of a factory-made bitmap come from the Create aggregates (every field set)", "imageHeader = ImageHeader::Create(…); bmpHeader = BmpHeader::Create(…)"))
     else:
